@@ -75,6 +75,8 @@ def expr(e):
         return e["n"] + sfx(e)
     if k == "idx":
         return e["n"] + sfx(e) + "(" + ", ".join(expr(x) for x in e["subs"]) + ")"
+    if k == "arr":
+        return e["n"] + sfx(e) + "()"
     if k == "fld":
         # a member may be written with the suffix of its type (R.S$, A(1).N&)
         return expr(e["base"]) + "." + e["f"] + (SUFFIX[e["t"]] if e.get("sfxspell") and e["t"] != "U" else "")
@@ -352,7 +354,7 @@ def program(prog):
         o.emit("END TYPE")
     body(o, prog["main"][k0:], 0)
     for sub in prog.get("subs", []):
-        params = ", ".join((p["n"] + " AS " + p["ty"]) if p["t"] == "U" else (p["n"] + SUFFIX[p["t"]])
+        params = ", ".join((p["n"] + ("()" if p.get("arr") else "") + " AS " + p["ty"]) if p["t"] == "U" else (p["n"] + SUFFIX[p["t"]] + ("()" if p.get("arr") else ""))
                            for p in sub["params"])
         head = ("FUNCTION " + sub["n"] + SUFFIX[sub["t"]]) if sub["kind"] == "fun" else ("SUB " + sub["n"])
         if params:
